@@ -4,7 +4,7 @@
   Mirrors (file : function)
     network.go : needThisTxExt, processTx, HandleNetTx, SubmitLocalTx (as driven by usif), Tick (parts)
     tosend.go  : OneTxToSend.Add / Delete(with_children) / GetChildren / GetAllChildren / removeExcessiveTxs
-    mining.go  : mined / unmined / txMined / BlockMined / BlockUndone
+    mining.go  : mined / unmined / txMined / BlockMined / BlockUndone / removeUnspendableCoinbaseSpends
     rjected.go : OneTxRejected.Add / Delete / cleanup, rejectTx, txAccepted, the TRIdxArray ring
     sort.go    : AddToSort / DelFromSort / insertDownFromHere / findWorstParent (by SortRank) / insertBefore /
                  fixIndex / reindexDown / reindexEverything / adjustSortIndexStep, buildSortedList,
@@ -723,6 +723,30 @@ def expire (K : Keys) (s : State) (old : List Nat) : State :=
     | some t => delWithChildren K 0 (s.pool.length + 1) s t
     | none => s) s
 
+/-- removeUnspendableCoinbaseSpends (mining.go, added by the 4th `fix:` commit): a pooled record has a confirmed
+    (not flagged) input that a block of height `h` cannot spend — the output does not exist, or it is a coinbase
+    output that is not mature at `h` (`height - po.BlockHeight < COINBASE_MATURITY` in uint32 arithmetic) -/
+def unspendableAt (s : State) (h : Nat) (t : T2S) : Bool :=
+  (List.range t.tx.ins.length).any fun k =>
+    match t.tx.ins[k]? with
+    | none => false
+    | some i =>
+      !(t.mem.getD k false) &&
+      match s.utxo.get? (i.prev, i.vout) with
+      | none => true
+      | some c => c.coinbase && decide ((h + 2 ^ 32 - c.height % 2 ^ 32) % 2 ^ 32 < COINBASE_MATURITY)
+
+/-- the records removeUnspendableCoinbaseSpends collects (the Go code walks the map: the order is unspecified; every
+    one is deleted with its children and without a reject record, so the resulting state does not depend on it) -/
+def unspendableKeys (s : State) (h : Nat) : List Nat :=
+  (s.pool.filter fun p => unspendableAt s h p.2).map (·.1)
+
+/-- BlockUndone for the block of height `h` (the next block will have that height again): put the block's
+    transactions back, then drop — as expireOldTxs does — what spends a coinbase that is immature again or gone -/
+def blockUndoneAt (K : Keys) (minFee : Nat) (s : State) (h : Nat) (txs : List Tx) : State :=
+  let s := blockUndone K minFee s txs
+  expire K s (unspendableKeys s h)
+
 /-- HasNoChildren -/
 def hasNoChildren (K : Keys) (s : State) (t : T2S) : Bool :=
   (iota t.tx.outs.length).all fun vout => (s.spent.get? (K.uidx t.tx.id vout)).isNone
@@ -874,7 +898,7 @@ inductive Op where
   | submitNet (t : Tx) (trusted : Bool) (minFee : Nat)
   | submitLocal (t : Tx) (minFee : Nat)
   | block (h : Nat) (txs : List Tx) (minFee : Nat) -- connect a (valid) block of height h (common.Last is updated by `tip`)
-  | undo (minFee : Nat)                           -- disconnect the last block
+  | undo (h : Nat) (minFee : Nat)                 -- disconnect the last block (h = its height, bl.Height)
   | tip (h : Nat)                                 -- common.Last.Block moves (after CommitBlock returned)
   | expire (old : List Nat)
   | evict (victims : List Nat)
@@ -886,8 +910,8 @@ def step (K : Keys) (s : State) : Op → State
   | .submitNet t tr mf => (submitNet K mf s t tr).2
   | .submitLocal t mf => (submitLocal K mf s t).2
   | .block h txs mf => blockMined K mf (connectUtxo s h txs) txs
-  | .undo mf => match disconnectUtxo s with
-    | some (s, txs) => blockUndone K mf s txs
+  | .undo h mf => match disconnectUtxo s with
+    | some (s, txs) => blockUndoneAt K mf s h txs
     | none => s
   | .tip h => { s with height := h }
   | .expire old => expire K s old
